@@ -538,7 +538,9 @@ impl<'a> MtHelpers<'a> {
                             dispatch_reply(deps, env, msg, contract).map_err(Into::into)
                         }
                     } else {
-                        let reply_name = _reply.name().to_case(Case::Snake);
+                        // The handler has to be called by its own name: re-casing the variant
+                        // name changes it for names containing digits (`on_reply2`).
+                        let reply_name = _reply.function_name();
                         quote! {
                             self. #reply_name ((deps, env).into(), msg).map_err(Into::into)
                         }
